@@ -745,18 +745,27 @@ _GMCD_LOOP = {
             "depth-upper": "maxComponentDepth <= initialMaxComponentDepth - 1 + glyphSet.rank[glyph.name]",
             "visited-grows": "all(n in visited for n in V1)",
             "stack": "rec_stack == RS1",
+            "stack-ranks": "all(glyphSet.rank[rec_stack[k]] >= glyphSet.rank[glyph.name] for k in range(len(rec_stack)))",
         },
     )
 }
+_GMCD_HINTS = {"rec_stack.append(glyph.name)": [
+    # the list update position by position, then the rank fact for the extended stack (the solvers do not get there from the concat term)
+    "len(rec_stack) == len(RS0) + 1 and rec_stack[len(RS0)] == glyph.name",
+    "all(rec_stack[k] == RS0[k] for k in range(len(RS0)))",
+    "all(glyphSet.rank[rec_stack[k]] >= glyphSet.rank[glyph.name] for k in range(len(rec_stack)))",
+]}
 
 # (waiting for engine request 9 in notes/C01.requests.md: until `modifies` tolerates the dead `if visited is None: visited = set()`
 #  the two contracts below are NOT registered for the check — the Ref-typed variant further down is)
-_GMCD_PROPS: list = []
+_GMCD_PROPS: list = ["C02"]
 
 contract(
     "ufo2ft.util:getMaxComponentDepth",
     name="rec",
     props=_GMCD_PROPS,
+    calls={"ufo2ft.util:getMaxComponentDepth": "ufo2ft.util:getMaxComponentDepth#rec"},
+    alias_ok=("visited", "V1", "rec_stack", "RS1"),  # V1 / RS1 are ghost SNAPSHOTS (values), not second holders of the containers
     params={"glyph": Ref("C02_FGlyph"), "glyphSet": Ref("C02_FGlyphSet"), "maxComponentDepth": INT, "visited": Set(STR), "rec_stack": List(STR)},
     returns=INT,
     modifies=["visited", "rec_stack"],
@@ -775,8 +784,10 @@ contract(
     },
     raises={"InvalidFontData": "False"},  # never on a ranked (acyclic) glyph set
     canaries={"always-one": "result == maxComponentDepth + 1", "exact-height": "result == maxComponentDepth + glyphSet.rank[glyph.name]"},
-    ghost_vars={"V1": (Set(STR), "set()"), "RS1": (List(STR), "[]")},
+    ghost_vars={"V1": (Set(STR), "set()"), "RS1": (List(STR), "[]"), "RS0": (List(STR), "rec_stack")},
     ghost={"rec_stack.append(glyph.name)": ["V1 = visited", "RS1 = rec_stack"]},
+    hints=_GMCD_HINTS,
+    seq_positions=True,  # `x in rec_stack` comes with a position witness
     loops=_GMCD_LOOP,
     locals={"baseGlyph": Ref("C02_FGlyph")},
 )
@@ -789,6 +800,7 @@ contract(
     params={"glyph": Ref("C02_FGlyph"), "glyphSet": Ref("C02_FGlyphSet")},
     returns=INT,
     calls={"ufo2ft.util:getMaxComponentDepth": "ufo2ft.util:getMaxComponentDepth#rec"},
+    alias_ok=("visited", "V1", "rec_stack", "RS1"),
     requires=[_RANKED, _IN_SET],
     ensures={
         "simple-is-zero": f"implies(not {_HASC}, result == 0)",
@@ -797,8 +809,10 @@ contract(
     },
     raises={"InvalidFontData": "False"},
     canaries={"always-zero": "result == 0"},
-    ghost_vars={"V1": (Set(STR), "set()"), "RS1": (List(STR), "[]")},
+    ghost_vars={"V1": (Set(STR), "set()"), "RS1": (List(STR), "[]"), "RS0": (List(STR), "[]")},
     ghost={"rec_stack.append(glyph.name)": ["V1 = visited", "RS1 = rec_stack"]},
+    hints=_GMCD_HINTS,
+    seq_positions=True,
     loops=_GMCD_LOOP,
     locals={"baseGlyph": Ref("C02_FGlyph"), "visited": Set(STR), "rec_stack": List(STR)},
 )
